@@ -46,7 +46,10 @@ def extra_conds():
     from annet.rpl import R
     return [lambda: R.as_path_length.between_included(1, 5), lambda: R.metric == 10, lambda: R.protocol == "bgp", lambda: R.interface == "Loopback0",
             lambda: R.local_pref < 100, lambda: R.net_len == 24, lambda: R.family == 4, lambda: R.community.has("CRX"), lambda: R.rd.has("RD1", "RD2"),
-            lambda: R.extcommunity_soo.has_any("SOO1"), lambda: R.match_v6("PL6B", or_longer=(None, 64))]
+            lambda: R.extcommunity_soo.has_any("SOO1"), lambda: R.match_v6("PL6B", or_longer=(None, 64)),
+            # the same lists referred to in another order / with and without an or_longer override (names are derived from both)
+            lambda: R.community.has_any("C2", "C1"), lambda: R.match_v4("PL4B"), lambda: R.match_v4("PL4", or_longer=(24, 32)),
+            lambda: R.match_v6("PL6B"), lambda: R.large_community.has_any("LG2", "LG1"), lambda: R.extcommunity_rt.has_any("RT2", "RT1")]
 
 
 def act_catalogue():
@@ -200,10 +203,17 @@ def run(ctx):
         as_ = [acts[i - 1] for i in p["a"]]
         for vendor in ("huawei", "arista"):
             observe("s2c", vendor, [(cs, as_, "allow")])
+    # every ordered pair of conditions in two successive statements (list names are derived per use: dedupe / naming across statements)
+    for ci in range(len(xconds)):
+        for cj in range(len(xconds)):
+            if ci == cj or (quick and (ci * 7 + cj) % 2):
+                continue
+            for vendor in ("huawei", "arista"):
+                observe("pair", vendor, [([xconds[ci]], [], "allow"), ([xconds[cj]], [], "allow")])
     for _ in range(1500 if quick else 40000):
         stmts = []
-        for _s in range(rnd.choice([1, 1, 2])):
-            stmts.append((rnd.sample(xconds, rnd.randint(0, 3)), rnd.sample(xacts, rnd.randint(0, 3)), rnd.choice(["allow", "deny", "next"])))
+        for _s in range(rnd.choice([1, 2, 2, 3])):
+            stmts.append((rnd.sample(xconds, rnd.randint(0, 3)), rnd.sample(xacts, rnd.randint(0, 2)), rnd.choice(["allow", "deny", "next"])))
         observe("rnd", rnd.choice(["huawei", "arista"]), stmts)
     ctx.sample({"vendor": recs[0]["vendor"], "events": recs[0]["events"], "output": recs[0]["textLines"]})
     slim = [{k: v for k, v in r.items() if k != "exc"} for r in recs]
